@@ -136,11 +136,18 @@ class ExprMixin:
                 continue
             r = seqs.lit_str("")
             for x in vals:
-                r = seqs.concat(r, self.str_of(x, s))
+                try:
+                    piece = self.str_of(x, s)
+                except Unsupported:
+                    piece = self.fresh(STR, "fstr", s)  # unmodelled formatting: an unconstrained string
+                r = seqs.concat(r, piece)
             yield r, s
 
     def str_of(self, v, st) -> VSeq:
         v = self.deref(v, st)
+        if isinstance(v, V) and v.sort.kind == "opt":
+            # str(None) is "None": split is avoided — callers in rich assert not-None first
+            v = self.deref(self.unwrap_opt(v, st, "str() argument"), st)
         if isinstance(v, VSeq) and v.is_str:
             return v
         if isinstance(v, V) and v.sort.kind == "str":
@@ -331,12 +338,20 @@ class ExprMixin:
                     yield v, s
                 continue
             if all(is_simple(r) for r in rest) or self.spec_mode:
-                # no forking: evaluate the rest under the same state and merge
-                outs = list(self._boolop(rest, is_and, s))
+                # no forking: evaluate the rest under the guard (so that its safety obligations and facts
+                # are conditional on the short-circuit condition) and merge
+                guard_t = tv if is_and else z3.Not(tv)
+                sr = s.copy()
+                sr.assume(guard_t)
+                base_len = len(sr.pc)
+                outs = list(self._boolop(rest, is_and, sr))
                 if len(outs) == 1 and not isinstance(outs[0][0], Exc):
                     rv, s2 = outs[0]
+                    for f in s2.pc[base_len:]:
+                        s.assume(z3.Implies(guard_t, f))
+                    s.heap.update({k: v for k, v in s2.heap.items() if k not in s.heap})
                     try:
-                        mv = self.merge(tv, rv, v, s2) if is_and else self.merge(tv, v, rv, s2)
+                        mv = self.merge(tv, rv, v, s) if is_and else self.merge(tv, v, rv, s)
                     except Unsupported:
                         if self.spec_mode:
                             raise
@@ -345,7 +360,7 @@ class ExprMixin:
                         tr = self.truthy(rv, s2)
                         mv = V(BOOL, z3.And(tv, tr) if is_and else z3.Or(tv, tr))
                         self.notes.append("mixed-kind boolean operator reduced to its truth value")
-                    yield mv, s2
+                    yield mv, s
                     continue
                 if self.spec_mode:
                     raise Unsupported("forking boolean operator in spec expression")
@@ -513,6 +528,8 @@ class ExprMixin:
                 return z3.And(*parts) if parts else z3.BoolVal(True)
             if ka == "tuple" and kb == "tuple":
                 return self.val_eq(self.from_term(a.t, a.sort, st), self.from_term(b.t, b.sort, st), st)
+            if ka == "ostr" and kb == "ostr":
+                return a.t == b.t
             if ka == "opaque" and kb == "opaque":
                 return a.t == b.t if a.sort == b.sort else z3.BoolVal(False)
             if {ka, kb} <= {"int", "bool", "real"}:
@@ -522,6 +539,12 @@ class ExprMixin:
                     return a.t == b.t
                 return self.as_int(a) == self.as_int(b)
             return z3.BoolVal(False)
+        for x, y in ((a, b), (b, a)):
+            if isinstance(x, VSeq) and x.is_str and isinstance(y, V) and y.sort.kind == "ostr":
+                return self.ostr_of(x, st) == y.t
+            if isinstance(x, VSeq) and x.is_str and isinstance(y, V) and y.sort.kind == "opt" and y.sort.args[0].kind == "ostr":
+                dy = self.U.z3sort(y.sort)
+                return z3.And(dy.is_some(y.t), dy.val(y.t) == self.ostr_of(x, st))
         if isinstance(a, (VSeq, VTuple)) or isinstance(b, (VSeq, VTuple)):
             # e.g. str == None
             return z3.BoolVal(False)
@@ -615,6 +638,11 @@ class ExprMixin:
 
     def do_index(self, base, idx, st):
         b0 = self.deref(base, st)
+        if isinstance(b0, V) and b0.sort.kind == "opt":
+            base = self.unwrap_opt(b0, st, "subscripted value")
+            b0 = self.deref(base, st)
+        if isinstance(b0, V) and b0.sort.kind == "tuple":
+            b0 = self.from_term(b0.t, b0.sort, st)
         if isinstance(b0, VTuple):
             iv = z3.simplify(self.to_mathint(self.as_int(self.deref(idx, st))))
             if z3.is_int_value(iv):
@@ -629,6 +657,10 @@ class ExprMixin:
                 yield from r
                 return
         if isinstance(b0, V) and b0.sort.kind == "rec":
+            mod_, cls_ = self.class_of_record(b0.sort.name)
+            if mod_ is not None and f"{cls_}.__getitem__" in mod_.funcs:
+                yield from self.call_function(mod_, f"{cls_}.__getitem__", [b0, idx], {}, st)
+                return
             iv = z3.simplify(self.to_mathint(self.as_int(self.deref(idx, st))))
             decl = self.U.records[b0.sort.name]
             if z3.is_int_value(iv) and 0 <= iv.as_long() < len(decl.positional):
